@@ -323,7 +323,10 @@ Definition op_rebalance (p : list nat) (w : t) (k : nat) (base : option t) (upd 
         tree_at (p ++ [k]) (op_allocate_self (delta * base) upd) tr
     end.
 
-Inductive rfield := RValue | RWeight | RNotl | RPrice.
+Inductive rfield := RValue | RWeight | RNotl | RPrice | RSeries.
+(* RSeries: read every history accessor (prices, values, positions, ...): the model hands out
+   firstn (inow+1) by construction and answers 1; the implementation answers 1 iff every series it
+   hands out ends at the current date *)
 
 Inductive op :=
 | OUpdate (date : option nat)
@@ -336,28 +339,38 @@ Inductive op :=
 | ORead (p : list nat) (f : rfield).
 
 (* property reads: the returned cell is the value handed to the caller *)
+(* SecurityBase.price & co: "if self._needupdate or self.now != self.parent.now: self.update(self.root.now)" *)
+Definition sec_self_update (p : list nat) (tr : tree) : result tree :=
+  match p with
+  | [] => Err EParentless
+  | _ =>
+    '(n, _, _) <- at_path p (fun ctx n =>
+        match n, ctx with
+        | NSec s, Some c =>
+          s <- (if s_needupdate s || negb (onat_eqb (s_now s) (c_now c))
+                then (irow <- date_row (length (h_values s)) (root_now tr) ;; sec_update (root_now tr) irow s)
+                else Ok s) ;;
+          Ok (NSec s, None, false)
+        | _, _ => Err EOther
+        end) None (fst tr) ;;
+    Ok (n, snd tr)
+  end.
+
 Definition op_read (p : list nat) (f : rfield) (tr : tree) : result (tree * cell) :=
   match get_node p (fst tr), f with
   | None, _ => Err EKey
   | Some (NSec _), RPrice =>
-    (* SecurityBase.price: updates the security itself, not the tree *)
-    match p with
-    | [] => Err EParentless
-    | _ =>
-      '(n, _, _) <- at_path p (fun ctx n =>
-          match n, ctx with
-          | NSec s, Some c =>
-            s <- (if s_needupdate s || negb (onat_eqb (s_now s) (c_now c))
-                  then (irow <- date_row (length (h_values s)) (root_now tr) ;; sec_update (root_now tr) irow s)
-                  else Ok s) ;;
-            Ok (NSec s, None, false)
-          | _, _ => Err EOther
-          end) None (fst tr) ;;
-      match get_node p n with
-      | Some (NSec s) => Ok ((n, snd tr), s_price s)
-      | _ => Err EOther
-      end
+    tr <- sec_self_update p tr ;;
+    match get_node p (fst tr) with
+    | Some (NSec s) => Ok (tr, s_price s)
+    | _ => Err EOther
     end
+  | Some (NSec s0), RSeries =>
+    (* coupons / holding_costs are read first (coupon classes): they only refresh the tree *)
+    tr <- (if class_coupon (s_class s0) then refresh paper_step tr else Ok tr) ;;
+    tr <- sec_self_update p tr ;;
+    tr <- refresh paper_step tr ;;
+    Ok (tr, Some 1)
   | Some _, _ =>
     tr <- refresh paper_step tr ;;
     match get_node p (fst tr) with
@@ -369,6 +382,7 @@ Definition op_read (p : list nat) (f : rfield) (tr : tree) : result (tree * cell
                     | RNotl, _ => raw_notl n
                     | RPrice, NStrat g _ _ _ => g_price g
                     | RPrice, NSec s => 0
+                    | RSeries, _ => 1
                     end))
     end
   end.
